@@ -1,17 +1,31 @@
 /-!
-# Stable insertion sort: model of Python's `sorted(l, key=…)` (and of `ORDER BY` with a total tiebreak)
--/
-namespace Aw
+# Python `sorted(xs, key=...)` / `list.sort(key=...)` with an integer key
 
-/-- insert `x` before the first element whose key is ≥ its key; used with `x` taken from the
-    front of the input, this keeps equal keys in input order -/
-def insertBy {α} (key : α → Int) (x : α) : List α → List α
+Python's sort is stable: elements with equal keys keep their input order. The model is the
+textbook stable insertion sort (`foldr` of an insertion that places the new — earlier — element in
+front of the first element whose key is not smaller). Which sorting algorithm CPython uses is
+irrelevant: a stable sort is determined by its input (`AwProofs/Lemmas/PySort.lean`:
+permutation, sortedness, stability).
+-/
+namespace Aw.PySort
+variable {α : Type}
+
+/-- insert `x`, which precedes every element of the (sorted) list in input order, in front of the
+    first element whose key is `≥ key x` -/
+def insertBy (key : α → Int) (x : α) : List α → List α
   | [] => [x]
   | y :: ys => if key x ≤ key y then x :: y :: ys else y :: insertBy key x ys
 
-/-- stable sort ascending by `key` -/
-def sortBy {α} (key : α → Int) : List α → List α
+/-- `sorted(l, key=key)` -/
+def sortBy (key : α → Int) : List α → List α
   | [] => []
   | x :: xs => insertBy key x (sortBy key xs)
 
+/-- `sorted(l, key=key, reverse=True)`: descending, equal keys in input order -/
+def sortByDesc (key : α → Int) (l : List α) : List α := sortBy (fun a => - key a) l
+
+end Aw.PySort
+
+namespace Aw
+export PySort (insertBy sortBy sortByDesc)
 end Aw
